@@ -101,13 +101,13 @@ def commonValidate (source : String) (attrs : List Annot) : List Diag :=
           (if d.anyProps then []
            else if d.allowedProps.isEmpty && !a.props.isEmpty then [warn "annotation-properties-should-not-exist"]
            else
-             match a.props.find? (fun (k, _, _) => !(d.allowedProps.any (·.1 = k))) with
-             | some _ => [warn "annotation-property-should-not-exist"]
-             | none =>
-               if a.props.any (fun (k, kind, _) => match d.allowedProps.find? (·.1 = k) with
-                   | some (_, ty) => !kindMatches ty kind
-                   | none => false)
-               then [warn "annotation-properties-invalid-value-for-key"] else []) ++
+             -- properties are checked in key order (fix e73f250; a Go map before it): the FIRST faulty one is reported
+             match (a.props.mergeSort (fun x y => x.1 ≤ y.1)).findSome? (fun (k, kind, _) =>
+                 match d.allowedProps.find? (·.1 = k) with
+                 | none => some (warn "annotation-property-should-not-exist")
+                 | some (_, ty) => if kindMatches ty kind then none else some (warn "annotation-properties-invalid-value-for-key")) with
+             | some w => [w]
+             | none => []) ++
           (if !d.allowsMultiple && cnt > 1 then [warn "annotation-duplicate"] else []) ++
           (if d.mutuallyExclusive.any (fun x => countOf x > 0) then [err "annotation-mutually-exclusive"] else []) ++
           (if d.requiresUniqueValue && !a.value.isEmpty && uniq.contains a.value then [err "annotation-duplicate-value"] else []) ++
